@@ -84,6 +84,7 @@ type Ledger struct {
 	blkHeaderCache *cache.LRUCache // block header cache, 加速fetchBlock
 	cryptoClient   cryptoBase.CryptoClient
 	confirmBatch   kvdb.Batch //新增区块
+	correctedTxs   map[string][]byte // ConfirmBlock期间因分叉切换被改指向的交易: txid -> 新的blockid
 }
 
 // ConfirmStatus block status
@@ -375,6 +376,21 @@ func (l *Ledger) fetchBlock(blockid []byte) (*pb.InternalBlock, error) {
 	return block, nil
 }
 
+// isAncestor 判断old是否是block自己所在分支上的祖先区块. 同一分支内重复出现的交易, confirm表里的记录
+// 保持指向最早的那个区块: 如果改指向新区块, 新区块被裁剪(Truncate不清理confirm表)后, 仍在主干上的
+// 旧区块里的这笔交易就查不到所属区块了
+func (l *Ledger) isAncestor(old *pb.InternalBlock, block *pb.InternalBlock) bool {
+	cur := block
+	for cur.Height > old.Height && len(cur.PreHash) > 0 {
+		pre, err := l.fetchBlock(cur.PreHash)
+		if err != nil {
+			return false
+		}
+		cur = pre
+	}
+	return cur != block && bytes.Equal(cur.Blockid, old.Blockid)
+}
+
 //当发生主干切换后，确保最长路径上的block的tx的blockid指向它
 func (l *Ledger) correctTxsBlockid(blockID []byte, batchWrite kvdb.Batch) error {
 	block, err := l.queryBlock(blockID, true)
@@ -393,6 +409,9 @@ func (l *Ledger) correctTxsBlockid(blockID []byte, batchWrite kvdb.Batch) error 
 				return err
 			}
 			batchWrite.Put(append([]byte(pb.ConfirmedTablePrefix), tx.Txid...), pbTxBuf)
+			if l.correctedTxs != nil {
+				l.correctedTxs[string(tx.Txid)] = blockID
+			}
 		}
 	}
 	return nil
@@ -583,6 +602,8 @@ func (l *Ledger) ConfirmBlock(block *pb.InternalBlock, isRoot bool) ConfirmStatu
 
 	batchWrite := l.confirmBatch
 	batchWrite.Reset()
+	l.correctedTxs = map[string][]byte{}
+	defer func() { l.correctedTxs = nil }()
 	newMeta := proto.Clone(l.meta).(*pb.LedgerMeta)
 	splitHeight := newMeta.TrunkHeight
 	if isRoot { //确认创世块
@@ -702,6 +723,10 @@ func (l *Ledger) ConfirmBlock(block *pb.InternalBlock, isRoot bool) ConfirmStatu
 				confirmStatus.Error = parserErr
 				return confirmStatus
 			}
+			if bid, ok := l.correctedTxs[string(tx.Txid)]; ok {
+				// 本次分叉切换已经把这笔交易改指向新主干上的区块(还在batch里, 磁盘上仍是旧值)
+				oldTx.Blockid = bid
+			}
 			oldBlock := &pb.InternalBlock{}
 			if cachedBlk, cacheHit := oldBlockCache[string(oldTx.Blockid)]; cacheHit {
 				oldBlock = cachedBlk
@@ -732,7 +757,7 @@ func (l *Ledger) ConfirmBlock(block *pb.InternalBlock, isRoot bool) ConfirmStatu
 					"txid", utils.F(tx.Txid),
 					"blockid", utils.F(oldBlock.Blockid))
 				return confirmStatus
-			} else if block.InTrunk {
+			} else if block.InTrunk && !l.isAncestor(oldBlock, block) {
 				l.xlog.Info("change blockid of tx", "txid", utils.F(tx.Txid), "blockid", utils.F(block.Blockid))
 				batchWrite.Put(append([]byte(pb.ConfirmedTablePrefix), tx.Txid...), pbTxBuf)
 				// cache里的旧区块还带着这笔交易的旧blockid, 丢弃后从磁盘重新加载
